@@ -15,6 +15,7 @@ Definition dec_gop (v : val) : gop :=
   | 6 => GList
   | 7 => GAttach (as_nat a) (as_bool (nthv 2 v))
   | 8 => GDetach (as_nat a) (as_bool (nthv 2 v))
+  | 10 => GUnregistAll
   | _ => GIdle (as_nat a) (as_bool (nthv 2 v))
   end.
 
@@ -38,12 +39,22 @@ Definition dec_gout (v : val) : gout :=
 Definition c05_variant (v : val) : rvariant :=
   {| v_unmap := as_bool (nthv 0 v); v_anycons := as_bool (nthv 1 v) |}.
 
-(* case = (variant ops) *)
+(* the end of the history: per stream (live, consumers ever attached, Consumer.Close calls) *)
+Definition enc_end (v : list (bool * Z * Z)) : val :=
+  vlist (fun t => VL [vbool (fst (fst t)); VI (snd (fst t)); VI (snd t)]) v.
+Definition dec_end (v : val) : list (bool * Z * Z) :=
+  map (fun t => (as_bool (nthv 0 t), as_int (nthv 1 t), as_int (nthv 2 t))) (as_list v).
+
+Definition c05_ops (c : val) : list gop := map dec_gop (as_list (nthv 1 c)).
+
+(* case = (variant ops); observation = (answer_1 ... answer_n end_vector) *)
 Definition x_C05_run (c : val) : val :=
-  vlist enc_gout (snd (grun (c05_variant (nthv 0 c)) rinit (map dec_gop (as_list (nthv 1 c))))).
+  let r := grun (c05_variant (nthv 0 c)) rinit (c05_ops c) in
+  VL (map enc_gout (snd r) ++ [enc_end (end_vec (g_streams (fst r)))]).
 
 Definition x_C05_ok (v : val) : val :=
   let c := nthv 0 v in
-  vbool (ok_hist_C05 (map dec_gop (as_list (nthv 1 c))) (map dec_gout (as_list (nthv 1 v)))).
+  let obs := as_list (nthv 1 v) in
+  vbool (ok_hist_end_C05 (c05_ops c) (map dec_gout (removelast obs)) (dec_end (last obs (VL [])))).
 
-Definition x_C05_wf (c : val) : val := vbool (hist_wf sinit (map dec_gop (as_list (nthv 1 c)))).
+Definition x_C05_wf (c : val) : val := vbool (hist_wf sinit (c05_ops c)).
